@@ -200,3 +200,37 @@ Print Assumptions mesh_local_view_history_independent.
 
 Example mesh_local_view_hypotheses_satisfiable : wf_mdesc (nth 1 Mref dummy_mdesc) /\ m_status (nth 1 Mref dummy_mdesc) = 0.
 Proof. split; [repeat constructor | reflexivity]. Qed.
+
+(* ======================= the current source (coq/Gen/GenC17.v, regenerated from the working tree on every run) ======================= *)
+(* translators/t_c17_state.py reads the statements the models depend on (where GetCurrentFormat() is called relative to
+   the open, how ReadTag terminates its buffer, the try/catch shape of every X::load/save, the statements of
+   Geometry::clear, Mesh::clear, the resets of Sensors::load, SparseMatrix::load, the flag assignments of SurfSourceMat)
+   and says which variant of each machine the code is.  The theorems below are stated for THAT variant: they stop
+   compiling when a source change leaves the repaired variant. *)
+From OM Require Import Gen.GenC17.
+Theorem current_code_is_the_repaired_variant :
+  code_io_cfg = repaired /\ code_get_current_resets = true /\ code_load_save_retry_shape = true
+  /\ code_sparse_load_clears = true /\ code_geometry_clear_resets_derived = true /\ code_sensors_load_resets = true
+  /\ code_mesh_cfg = m_repaired /\ code_surfsource_marks_source = true.
+Proof. repeat split; reflexivity. Qed.
+Print Assumptions current_code_is_the_repaired_variant.
+
+Theorem io_history_independent_current_code : forall W h o fs0,
+  snd (inproc_after code_io_cfg W h o fs0) = snd (fresh_after code_io_cfg W h o fs0)
+  /\ snd (fst (inproc_after code_io_cfg W h o fs0)) = snd (fst (fresh_after code_io_cfg W h o fs0)).
+Proof. exact io_history_independent_lemma. Qed.
+Print Assumptions io_history_independent_current_code.
+
+Theorem geometry_sensors_linop_history_independent_current_code :
+  (forall W h i, g_last code_geometry_clear_resets_derived W h (GLoad i) = g_last code_geometry_clear_resets_derived W [] (GLoad i))
+  /\ (forall geom W h i, s_last code_sensors_load_resets geom W h i = s_last code_sensors_load_resets geom W [] i)
+  /\ (forall sparse W h i, l_last code_sparse_load_clears sparse W h i = l_last code_sparse_load_clears sparse W [] i).
+Proof. exact (conj geometry_last_lemma (conj sensors_history_independent_lemma linop_history_independent_lemma)). Qed.
+Print Assumptions geometry_sensors_linop_history_independent_current_code.
+
+Theorem mesh_local_view_history_independent_current_code : forall W h i,
+  wf_mdesc (nth i W dummy_mdesc) -> m_status (nth i W dummy_mdesc) = 0 ->
+  m_observe_local 0 (fst (m_step code_mesh_cfg W (MLoad i) (m_run code_mesh_cfg W h mst0)))
+  = m_observe_local 0 (fst (m_step code_mesh_cfg W (MLoad i) mst0)).
+Proof. intros; apply mesh_local_history_independent_lemma; auto. Qed.
+Print Assumptions mesh_local_view_history_independent_current_code.
